@@ -76,6 +76,19 @@ func textUnits(tid int, ascii bool) []uint16 {
 		if ascii {
 			s = "Buro c"
 		}
+	case 8: // 600 units with surrogate pairs that START at units 127, 255 and 511 (each straddles a power of two)
+		u := make([]uint16, 600)
+		for i := range u {
+			u[i] = uint16('a' + i%26)
+		}
+		for _, at := range []int{127, 255, 511} {
+			if ascii {
+				u[at], u[at+1] = 's', '2'
+			} else {
+				u[at], u[at+1] = 0xD83D, 0xDE00
+			}
+		}
+		return u
 	case 5:
 		var u []uint16
 		pat := utf16.Encode([]rune("Prism ICC – ж 漢字 😀 "))
@@ -148,12 +161,12 @@ func seededProfiles(n int, seed int64) [][]byte {
 		gaps := []int{rng.Intn(4), rng.Intn(4), rng.Intn(4), rng.Intn(4)}
 		var d aDesc
 		if rng.Intn(4) == 0 {
-			d = aDesc{Kind: "v2", Tid: 1 + rng.Intn(7), Recs: []aRec{}, Place: "table", RecSize: 12}
+			d = aDesc{Kind: "v2", Tid: 1 + rng.Intn(8), Recs: []aRec{}, Place: "table", RecSize: 12}
 		} else {
 			nr := 1 + rng.Intn(40)
 			d = aDesc{Kind: "mluc", Place: places[rng.Intn(len(places))], RecSize: 12 + 4*rng.Intn(3)}
 			for r := 0; r < nr; r++ {
-				tid := 1 + rng.Intn(7)
+				tid := 1 + rng.Intn(8)
 				if tid == 5 && rng.Intn(3) != 0 {
 					tid = 1 + rng.Intn(4)
 				}
@@ -163,7 +176,7 @@ func seededProfiles(n int, seed int64) [][]byte {
 		p := aProfile{Tags: tags, NBlocks: nb, Order: order, Gaps: gaps, Desc: d}
 		// candidate identities, used only to NAME what was observed (TLC judges)
 		var cands [][2]int
-		tl := []int{0, 5, 0, 3, 3, 2000, 6, 3}
+		tl := []int{0, 5, 0, 3, 3, 2000, 6, 3, 600}
 		if d.Kind == "v2" {
 			cands = append(cands, [2]int{d.Tid, tl[d.Tid]})
 		} else {
@@ -232,7 +245,7 @@ func projectDesc(p aProfile, allowed [][2]int, s string, derr error) [2]int {
 	}
 	ascii := p.Desc.Kind == "v2"
 	match := func(c [2]int) bool {
-		if c[0] < 1 || c[0] > 7 {
+		if c[0] < 1 || c[0] > 8 {
 			return false
 		}
 		u := textUnits(c[0], ascii)
@@ -246,7 +259,7 @@ func projectDesc(p aProfile, allowed [][2]int, s string, derr error) [2]int {
 			return c
 		}
 	}
-	for tid := 1; tid <= 7; tid++ {
+	for tid := 1; tid <= 8; tid++ {
 		u := textUnits(tid, ascii)
 		if match([2]int{tid, len(u)}) {
 			return [2]int{tid, len(u)}
